@@ -685,4 +685,210 @@ def run (web : υ → Remote υ) (m : Mgr υ) : List (Op υ) → Mgr υ × List 
 
 end Src
 
+/-! ## environment variables (round 8): `ApplyEnvVars = toJSONConfig; envconfig.Process; applyJSONConfig`
+
+The JSON struct is first filled from the *current* Config (the save kind), `envconfig.Process` overwrites the
+fields whose variable is set, and the same apply function as in `LoadJSON` copies the struct back — with the
+current Config as `cur` (no `Default()` in between).  `env = none`: the variable is not set. -/
+def applyEnvScalar [DecidableEq α] (lk : LoadKind) (sk : SaveKind) (zero omitV dflt cur : α) (env : Option α) : α :=
+  loadScalar lk zero cur dflt (match env with | some e => e | none => saveScalar sk zero omitV cur)
+
+/-- `Manager.LoadJSONFileAndEnv` for one setting: `Default()`, the file's value, then the environment -/
+def fileThenEnv [DecidableEq α] (lk : LoadKind) (sk : SaveKind) (zero dflt file : α) (env : Option α) : α :=
+  applyEnvScalar lk sk zero dflt dflt (loadScalar lk zero dflt dflt file) env
+
+/-! ## identity.json (config/identity.go, round 8)
+
+Peer IDs and private keys are abstracted to the index of the key pair they belong to: `id n` is the text of the
+peer ID derived from key pair `n`, `key n` the base64 text of its private key, so `MatchesPrivateKey` is equality
+of indices (trusted: `peer.IDFromPublicKey` is injective on the generated pairs).  `applyIdentityJSON` assigns
+`ident.ID` *before* it decodes the key, so a refused load can leave a half-updated Identity — modelled as is. -/
+namespace Ident
+
+inductive IdTok | bad | id (n : Nat)
+  deriving DecidableEq, Repr
+/-- `badB64`: not base64; `badKey`: base64 of bytes `crypto.UnmarshalPrivateKey` refuses (also the empty text) -/
+inductive KeyTok | badB64 | badKey | key (n : Nat)
+  deriving DecidableEq, Repr
+
+structure St where
+  id : Option Nat := none
+  key : Option Nat := none
+  deriving DecidableEq, Repr
+
+def fresh : St := {}
+
+/-- `Identity.Validate`: ID set, key set, ID matches key -/
+def valid (s : St) : Bool :=
+  match s.id, s.key with
+  | some a, some b => a == b
+  | _, _ => false
+
+/-- `applyIdentityJSON`: Decode ID (error ⇒ return) ; assign ID ; base64 ; UnmarshalPrivateKey (error ⇒ return) ;
+assign key ; `return ident.Validate()` -/
+def apply (s : St) (i : IdTok) (k : KeyTok) : St × Bool :=
+  match i with
+  | .bad => (s, false)
+  | .id a =>
+    match k with
+    | .key b => ({ id := some a, key := some b }, valid { id := some a, key := some b })
+    | _ => ({ s with id := some a }, false)
+
+inductive Doc | garbage | obj (i : IdTok) (k : KeyTok)
+  deriving DecidableEq, Repr
+
+/-- `Identity.LoadJSON` (an absent key is the empty text: `bad` / `badKey`) -/
+def load (s : St) : Doc → St × Bool
+  | .garbage => (s, false)
+  | .obj i k => apply s i k
+
+/-- `toIdentityJSON`; needs a private key (`none`: the code dereferences a nil key — callers load first) -/
+def save (s : St) : Option (IdTok × KeyTok) :=
+  match s.key with
+  | none => none
+  | some b => some ((match s.id with | some a => .id a | none => .bad), .key b)
+
+/-- `Identity.ApplyEnvVars` with `CLUSTER_ID` / `CLUSTER_PRIVATEKEY` (`none` = not set) -/
+def applyEnv (s : St) (ei : Option IdTok) (ek : Option KeyTok) : St × Bool :=
+  match save s with
+  | none => (s, false)
+  | some (i, k) => apply s (ei.getD i) (ek.getD k)
+
+inductive Op | load (d : Doc) | env (ei : Option IdTok) (ek : Option KeyTok)
+  deriving DecidableEq, Repr
+
+def step (s : St) : Op → St × Bool
+  | .load d => load s d
+  | .env ei ek => applyEnv s ei ek
+
+/-- one Identity used for a sequence of operations -/
+def run (s : St) : List Op → St × List Bool
+  | [] => (s, [])
+  | o :: rest =>
+    let r := step s o
+    let rr := run r.1 rest
+    (rr.1, r.2 :: rr.2)
+
+/-! ### restapi's libp2p identity (api/rest/config.go `loadLibp2pOptions`, `validateLibp2p`) on a fresh Config
+
+`none` = key absent or `""` (the loader skips it).  The key is decoded first, then the ID; `Validate`: if any of
+ID / key / libp2p_listen_multiaddress is set, all must be, and the ID must match the key.  `none` result = refused. -/
+def restLoad (i : Option IdTok) (k : Option KeyTok) (addr : Bool) : Option St :=
+  match k with
+  | some .badB64 => none
+  | some .badKey => none
+  | _ =>
+    match i with
+    | some .bad => none
+    | _ =>
+      let s : St := { id := (match i with | some (.id a) => some a | _ => none),
+                      key := (match k with | some (.key b) => some b | _ => none) }
+      if s.id.isSome || s.key.isSome || addr then (if s.id.isSome && s.key.isSome && addr && valid s then some s else none)
+      else some s
+
+/-- `toJSONConfig`: an unset ID / key is saved as `""` -/
+def restSave (s : St) : Option IdTok × Option KeyTok := (s.id.map .id, s.key.map .key)
+
+/-! ### the regenerated statement sequence of `applyIdentityJSON`, interpreted
+
+`harness/common/c15_util.go` reads the function body as a list of events; `interp` executes them.  Theorem
+`gen_ident_apply` (Props): the interpretation of the regenerated sequence *is* `apply`, for all inputs — a dropped
+`return ident.Validate()`, a dropped error return or a reordering changes the interpretation. -/
+inductive Ev | decodeId | retErr | setId | b64 | unmarshalKey | setKey | retValidate | retNil | unknown
+  deriving DecidableEq, Repr
+
+structure Frame where
+  st : St
+  err : Bool := false          -- `err != nil`
+  pid : Option Nat := none     -- result of peer.Decode
+  pkb : Bool := false          -- base64 decoded to key bytes
+  pkey : Option Nat := none    -- result of UnmarshalPrivateKey
+
+def interp (i : IdTok) (k : KeyTok) : List Ev → Frame → Option (St × Bool)
+  | [], _ => none
+  | .decodeId :: r, c =>
+    (match i with
+     | .id a => interp i k r { c with pid := some a, err := false }
+     | .bad => interp i k r { c with pid := none, err := true })
+  | .retErr :: r, c => if c.err then some (c.st, false) else interp i k r c
+  | .setId :: r, c => interp i k r { c with st := { c.st with id := c.pid } }
+  | .b64 :: r, c =>
+    (match k with
+     | .badB64 => interp i k r { c with pkb := false, err := true }
+     | _ => interp i k r { c with pkb := true, err := false })
+  | .unmarshalKey :: r, c =>
+    (match k with
+     | .key b => if c.pkb then interp i k r { c with pkey := some b, err := false } else interp i k r { c with pkey := none, err := true }
+     | _ => interp i k r { c with pkey := none, err := true })
+  | .setKey :: r, c => interp i k r { c with st := { c.st with key := c.pkey } }
+  | .retValidate :: _, c => some (c.st, valid c.st)
+  | .retNil :: _, c => some (c.st, true)
+  | .unknown :: _, _ => none
+
+end Ident
+
+/-! ### `config.SetIfNotDefault`: the regenerated arms of its type switch, interpreted -/
+
+/-- does `SetIfNotDefault(src, dest)` assign, for a `src` of Go type `ty` that is / is not the zero value?
+No arm for the type: nothing happens (the function has no default case). -/
+def sindAssigns (arms : List (String × String)) (ty : String) (isZero : Bool) : Bool :=
+  match (arms.find? (·.1 == ty)).map (·.2) with
+  | some g => if g == "ne0" || g == "neEmpty" || g == "isTrue" then !isZero else if g == "always" then true else false
+  | none => false
+
+/-- Go type behind a table `Ty` when the row is copied with SetIfNotDefault -/
+def Ty.goName : Ty → String
+  | .int => "int" | .uint => "uint64" | .float => "float64" | .bool => "bool" | .str => "string" | .dur => "time.Duration"
+  | _ => "?"
+
+/-- `Manager.LoadJSONFileAndEnv` as the regenerated order of its calls: `file` = LoadJSON (Default() first), `env` = ApplyEnvVars -/
+def runOrder [DecidableEq α] (lk : LoadKind) (sk : SaveKind) (zero d file : α) (env : Option α) : List String → α → α
+  | [], cur => cur
+  | c :: r, cur =>
+    if c == "file" then runOrder lk sk zero d file env r (loadScalar lk zero d d file)
+    else if c == "env" then runOrder lk sk zero d file env r (applyEnvScalar lk sk zero d d cur env)
+    else cur
+
+/-! ## `config.DisplayJSON` (config/util.go:126-184, round 8)
+
+A configuration value is flattened to its leaves; each leaf carries the path of struct fields from the root
+(JSON name + whether that field carries `hidden:"true"`) and its printed value.  `DisplayJSON` rebuilds the
+*top-level* struct type only: a top-level field tagged hidden gets the type `hiddenField` (printed as the mask,
+its whole subtree gone); every other field keeps its Go type, so tags further down are not looked at. -/
+namespace Disp
+
+structure Seg where
+  name : String
+  hidden : Bool
+  deriving DecidableEq, Repr
+
+structure Leaf where
+  path : List Seg
+  val : String
+  deriving DecidableEq, Repr
+
+def maskText : String := "XXX_hidden_XXX"
+
+/-- the author's intent: some field on the way to the leaf is tagged hidden -/
+def Leaf.tagged (l : Leaf) : Bool := l.path.any (·.hidden)
+
+/-- what the code looks at: the top-level field only -/
+def Leaf.topHidden (l : Leaf) : Bool :=
+  match l.path with
+  | [] => false
+  | s :: _ => s.hidden
+
+/-- the displayed form: per leaf, its top-level field name and the text shown for it -/
+def display (cfg : List Leaf) : List (List String × String) :=
+  cfg.map fun l => if l.topHidden then ((l.path.take 1).map (·.name), maskText) else (l.path.map (·.name), l.val)
+
+/-- the alternative a deep walk would implement -/
+def displayDeep (cfg : List Leaf) : List (List String × String) :=
+  cfg.map fun l => if l.tagged then ((l.path.take 1).map (·.name), maskText) else (l.path.map (·.name), l.val)
+
+/-- texts visible in a displayed form -/
+def shown (d : List (List String × String)) : List String := d.map (·.2)
+
+end Disp
+
 end CV.C15
